@@ -116,6 +116,8 @@ class NP(_Stub):
     # ---- construction ----------------------------------------------------
     def array(self, x, dtype=None, copy=True):
         _use("numpy.array")
+        if copy is False and isinstance(x, (CArr, SArr)):
+            return x
         if isinstance(x, SArr):
             return x.copy()
         if isinstance(x, SSeq):
@@ -785,6 +787,18 @@ class _Linalg(_Stub):
     def norm(self, x, axis=None):
         """trusted: 2-norm of a vector / Frobenius norm of a matrix = sqrt(sum of squares)"""
         _use("numpy.linalg.norm")
+        if isinstance(x, SArrT) and axis is None:
+            # Frobenius norm over a (d, n) array: sqrt of the sum over the n columns of the squared column norms
+            g = x.base._cell[0]
+            d = x.shape[0]
+
+            def sq(k):
+                r = 0
+                row = g(k)
+                for i in range(d):
+                    r = r + row[i] * row[i]
+                return r
+            return ssqrt(prefix_sum(sq)(x.shape[1]))
         if isinstance(x, SArr):
             if axis == 1 and x.ndim == 2:
                 g = x._cell[0]
@@ -893,10 +907,34 @@ def norm3_square(term):
             stack.extend(t.children())
 
 
+def atan2(y, x):
+    """math.atan2 as an uninterpreted function with instantiated axioms: range (-pi, pi]; atan2(0, x>0) = 0;
+    atan2(y, x) depends on the direction only: atan2(r*y, r*x) = atan2(y, x) is NOT assumed (instantiate on request)"""
+    if not sym.has_ctx():
+        import math
+        return math.atan2(float(y), float(x))
+    if not is_sym(y) and not is_sym(x):
+        if sym.cnum(y) == 0 and sym.cnum(x) > 0:
+            return 0
+    ty, tx = _term(to_real(y)), _term(to_real(x))
+    f = uf("atan2", R, R, R)
+    r = f(ty, tx)
+    pi = sym.pi_axiom()
+    c = cur()
+    c.axiom(z3.And(r > -pi.t, r <= pi.t), "atan2.range")
+    c.axiom(z3.Implies(z3.And(ty == 0, tx > 0), r == 0), "atan2.zero")
+    c.ghost.setdefault("atan2_terms", []).append((ty, tx, r))
+    return wrap(r)
+
+
 class _Math(_Stub):
     def sqrt(self, x):
         _use("math.sqrt")
         return ssqrt(x)
+
+    def atan2(self, y, x):
+        _use("math.atan2")
+        return atan2(y, x)
 
     @property
     def pi(self):
